@@ -33,6 +33,8 @@ def guard(e):
     exceptions of the machinery itself (z3 API misuse, unsupported operation) must never become a verdict"""
     if isinstance(e, (z3.Z3Exception, Inconclusive)):
         raise e
+    if isinstance(e, RecursionError) or 'RecursionError' in str(e) or 'maximum recursion depth' in str(e):
+        raise Inconclusive('term too deep for the Python / z3 binding recursion limit: %s' % str(e)[:80])
     if isinstance(e, (TypeError, AttributeError)) and any(n in str(e) for n in ('SReal', 'SInt', 'SBool', 'SArr', "'ND'", 'SBV', 'Tok', 'Sym')):
         raise Unsupported('operation not supported by a proxy: %s' % e)
 
